@@ -50,6 +50,7 @@ type FuncVC struct {
 	homePkg    string          // package of the function being verified: its opaque preds are revealed
 	reveal     map[string]bool // explicitly revealed opaque preds
 	revealAll  bool
+	verNext    map[string]string // heap array version -> allocation counter when it was created (wfHeap facts)
 	scopeEnd   map[string]string // scoped assumption "pc\x00formula" -> pc at which it is forgotten
 	openScoped []string
 	entryPC    string          // pc after the preconditions were assumed
@@ -59,7 +60,7 @@ type FuncVC struct {
 func NewFuncVC(w *World, name string) *FuncVC {
 	return &FuncVC{w: w, name: name, decls: map[string]string{}, funDecls: map[string]string{},
 		pcParents: map[string][]string{}, pcCons: map[string][]string{}, cards: map[string]bool{},
-		boxes: map[string]bool{}, globals: map[*types.Var]string{}, joins: map[string][]string{}, opaqueMono: map[string]bool{}, reveal: map[string]bool{}, scopeEnd: map[string]string{}, cutAt: map[string]string{}}
+		boxes: map[string]bool{}, globals: map[*types.Var]string{}, joins: map[string][]string{}, opaqueMono: map[string]bool{}, reveal: map[string]bool{}, verNext: map[string]string{}, scopeEnd: map[string]string{}, cutAt: map[string]string{}}
 }
 
 func (vc *FuncVC) fresh() int { vc.counter++; return vc.counter }
@@ -369,6 +370,33 @@ func (vc *FuncVC) QueryGoal(ob *Obligation, choice map[string]string, goal strin
 	}
 	for _, a := range vc.axioms {
 		fmt.Fprintf(&ax, "(assert %s)\n", a)
+	}
+	// wfHeap: every reference stored in the heap is nil or allocated (holds by construction in Go)
+	usedNow := usedSymbols(text)
+	for _, n := range vc.declOrder {
+		if !usedNow[n] {
+			continue
+		}
+		base := n
+		if i := strings.LastIndex(n, "@"); i > 0 {
+			base = n[:i]
+		} else {
+			continue
+		}
+		a, ok := vc.w.heap.arrs[base]
+		if !ok || a.RefKind <= 0 {
+			continue
+		}
+		nx, ok := vc.verNext[n]
+		if !ok {
+			continue
+		}
+		if a.RefKind == 1 {
+			fmt.Fprintf(&ax, "(assert (forall ((r!w Int)) (! (and (<= 0 (select %s r!w)) (< (select %s r!w) %s)) :pattern ((select %s r!w)))))\n", n, n, nx, n)
+		} else {
+			ks, _ := splitArraySort(strings.TrimSuffix(strings.TrimPrefix(a.Sort, "(Array Int "), ")"))
+			fmt.Fprintf(&ax, "(assert (forall ((r!w Int) (k!w %s)) (! (and (<= 0 (select (select %s r!w) k!w)) (< (select (select %s r!w) k!w) %s)) :pattern ((select (select %s r!w) k!w)))))\n", ks, n, n, nx, n)
+		}
 	}
 	gf := vc.w.GlobalFacts()
 	for _, n := range vc.declOrder {
